@@ -133,6 +133,89 @@ pub fn run(args: &Args, rec: &mut Recorder) {
                 }
             }
         }
+        // ---- files that are not the top-level file: the body of the first MODULE as an include file
+        // and as a fragment file (load_fragment_file), in every encoding
+        if case % 3 == 1 {
+            if let Some(module) = doc.project().find_first("MODULE") {
+                let mut body = vcommon::doc::Flat::empty();
+                for c in &module.children {
+                    if let vcommon::doc::Child::Elem(e) = c {
+                        // an A2ML block is raw text up to /end A2ML and IF_DATA depends on it: both stay
+                        // in the picture, they are part of the body like everything else
+                        vcommon::doc::flatten_elem(e, 0, u32::MAX, true, false, &mut body);
+                    }
+                }
+                if !body.toks.is_empty() {
+                    let mut body_text = render(&body, &lc, rng).text;
+                    body_text.push_str("\n/* ünïcödé \u{1F600} */\n");
+                    let head = "ASAP2_VERSION 1 71\n/begin PROJECT p \"\"\n/begin MODULE m \"\"\n";
+                    let tail = "\n/end MODULE\n/end PROJECT\n";
+                    let flat_text = format!("{head}{body_text}{tail}");
+                    let main_text = format!("{head}/include \"c17inc.a2l\"{tail}");
+                    let ref_file = load_str(&flat_text, false);
+                    let ref_frag = guarded(|| a2lfile::load_fragment(&body_text, None));
+                    for enc in ENCODINGS {
+                        if !args.thorough && rng.chance(1, 2) {
+                            continue;
+                        }
+                        let pad = rng.below(4);
+                        let padded = format!("{body_text}{}", &"  \n "[..pad]);
+                        let bytes = encode(&padded, enc);
+                        let note = format!("include / fragment file in encoding {enc}, {} bytes", bytes.len());
+                        // (a) as include file of a UTF-8 main file
+                        if let Ok(Ok((reference, _))) = &ref_file {
+                            rec.eval();
+                            rec.nontrivial(&bytes);
+                            rec.bump(&format!("include_file.enc.{enc}"));
+                            std::fs::write(scratch.join("c17inc.a2l"), &bytes).unwrap();
+                            let mp = scratch.join("c17main.a2l");
+                            std::fs::write(&mp, &main_text).unwrap();
+                            match guarded(|| a2lfile::load(&mp, None, false)) {
+                                Err((sig, detail)) => rec.violation(&sig, &detail, witness_text("C17 include file", &padded, &note)),
+                                Ok(Err(e)) => rec.violation(
+                                    &format!("include file in encoding {enc} is rejected: {}", crate::gram::err_class(&e)),
+                                    &format!("{note}: {e}"),
+                                    witness_text("C17 include file", &padded, &note),
+                                ),
+                                Ok(Ok((m, _))) => {
+                                    if &m != reference {
+                                        rec.violation(
+                                            &format!("model loaded through an include file in encoding {enc} differs from the model of the decoded text"),
+                                            &format!("{note}; {}", crate::c01::model_diff(reference, &m)),
+                                            witness_text("C17 include file", &padded, &note),
+                                        );
+                                    }
+                                }
+                            }
+                        }
+                        // (b) as fragment file
+                        if let Ok(Ok(reference)) = &ref_frag {
+                            rec.eval();
+                            rec.bump(&format!("fragment_file.enc.{enc}"));
+                            let fp = scratch.join("c17frag.a2l");
+                            std::fs::write(&fp, &bytes).unwrap();
+                            match guarded(|| a2lfile::load_fragment_file(&fp, None)) {
+                                Err((sig, detail)) => rec.violation(&sig, &detail, witness_text("C17 fragment file", &padded, &note)),
+                                Ok(Err(e)) => rec.violation(
+                                    &format!("fragment file in encoding {enc} is rejected: {}", crate::gram::err_class(&e)),
+                                    &format!("{note}: {e}"),
+                                    witness_text("C17 fragment file", &padded, &note),
+                                ),
+                                Ok(Ok(m)) => {
+                                    if &m != reference {
+                                        rec.violation(
+                                            &format!("module loaded from a fragment file in encoding {enc} differs from load_fragment of the decoded text"),
+                                            &note,
+                                            witness_text("C17 fragment file", &padded, &note),
+                                        );
+                                    }
+                                }
+                            }
+                        }
+                    }
+                }
+            }
+        }
         // ---- Latin-1: every non-ASCII character is replaced by one byte >= 0x80
         if case % 2 == 0 {
             let mut bytes = Vec::with_capacity(text.len());
@@ -302,6 +385,10 @@ pub fn run(args: &Args, rec: &mut Recorder) {
     }
     rec.floor("docs.with_astral_characters", 5);
     rec.floor("latin1.files", 5);
+    for enc in ENCODINGS {
+        rec.floor(&format!("include_file.enc.{enc}"), 3);
+        rec.floor(&format!("fragment_file.enc.{enc}"), 3);
+    }
     rec.floor("utf16_with_unpaired_surrogate.files", 5);
     rec.floor("totality.byte_strings", 50);
 }
